@@ -13,10 +13,44 @@ pub struct CErr {
     pub message: String,
 }
 
+/// Reads the thread's last error the way a careful and a careless C client would, in rotation:
+/// first the length (null buffer), then a heap buffer of exactly that length + 1, or one that is too
+/// short (so the library has to truncate and still terminate inside `len` bytes). Eight guard bytes
+/// follow the `len` bytes handed to the library; they are heap memory too, so an overflow of up to
+/// eight bytes is seen here without a sanitizer, and a longer one by the AddressSanitizer flavour.
+/// A write beyond `len`, a missing terminator or a length that changes between two calls ends the
+/// process with a message (observed by the parent monitor as a C API call that killed its host).
 fn last_error(code: i32) -> CErr {
-    let mut buf = vec![0u8; 2048];
-    let n = c::ndb_last_error_message(buf.as_mut_ptr() as *mut c_char, buf.len());
-    let msg = String::from_utf8_lossy(&buf[..n.min(buf.len())]).trim_end_matches('\0').to_string();
+    use std::sync::atomic::{AtomicUsize, Ordering};
+    static ROT: AtomicUsize = AtomicUsize::new(0);
+    const GUARD: usize = 8;
+    let n = c::ndb_last_error_message(std::ptr::null_mut(), 0);
+    let rot = ROT.fetch_add(1, Ordering::Relaxed);
+    let lens = [n + 1, n.max(1), n / 2 + 1, 1, n + 1, 2048];
+    let mut full: Option<Vec<u8>> = None;
+    for k in [lens[rot % lens.len()], n + 1] {
+        let mut buf = vec![0xA5u8; k + GUARD];
+        let m = c::ndb_last_error_message(buf.as_mut_ptr() as *mut c_char, k);
+        let bad = if buf[k..].iter().any(|&b| b != 0xA5) {
+            Some("wrote beyond the caller's buffer")
+        } else if m != n {
+            Some("reported a different length for the same error")
+        } else if buf[n.min(k - 1)] != 0 {
+            Some("did not terminate the text where the truncated message ends")
+        } else {
+            None
+        };
+        if let Some(why) = bad {
+            eprintln!("panicked at C ABI client guard:\nndb_last_error_message(len = message length {n} -> buffer {k}) {why}");
+            std::process::abort();
+        }
+        if k > n {
+            buf.truncate(n);
+            full = Some(buf);
+            break;
+        }
+    }
+    let msg = String::from_utf8_lossy(&full.unwrap_or_default()).trim_end_matches('\0').to_string();
     CErr { code, category: c::ndb_last_error_category(), message: msg }
 }
 
